@@ -284,5 +284,18 @@ func watchUnits(res *common.Result) bool {
 		}
 	}
 	rec(nil)
+	if canonical && !stop {
+		// many events: long sequences cycling through every operation and both paths (the watcher keeps serving later events)
+		for _, n := range []int{10, 25, 60} {
+			var evs []evT
+			for i := 0; i < n; i++ {
+				evs = append(evs, alphabet[(i*7)%len(alphabet)])
+			}
+			for _, s := range repr {
+				do(watchCase{Events: evs, Subscribed: s}, bound)
+			}
+			do(watchCase{Events: evs, StartupFails: true}, bound)
+		}
+	}
 	return true
 }
